@@ -907,7 +907,7 @@ class FakeS3:
             num = kw['PartNumber']
             att = self.part_attempts.get(num, 0) + 1
             self.part_attempts[num] = att
-            etag = 'etag-%s-%s' % (num, att)
+            etag = '"etag-%s-%s"' % (num, att)      # quoted, as S3 returns them
             resp = {'ETag': etag}
             if 'ChecksumAlgorithm' in kw:
                 resp['Checksum' + kw['ChecksumAlgorithm'].upper()] = 'cksum-%s-%s' % (num, att)
@@ -927,10 +927,12 @@ class FakeS3:
             if end is None:
                 self.bad = 'CopySourceRange must be closed'
                 end = self.size - 1
+            if end < start or start >= self.size or end >= self.size:
+                self.bad = 'CopySourceRange empty or outside the source object (S3 answers InvalidArgument)' 
             num = kw['PartNumber']
             att = self.part_attempts.get(num, 0) + 1
             self.part_attempts[num] = att
-            res = {'ETag': 'etag-%s-%s' % (num, att)}
+            res = {'ETag': '"etag-%s-%s"' % (num, att)}      # quoted, as S3 returns them
             for alg in ('CRC32', 'CRC32C', 'SHA1', 'SHA256', 'CRC64NVME'):
                 res['Checksum' + alg] = 'cksum-%s-%s-%s' % (alg, num, att)
             u['parts'][num] = ([Blob(start, end - start + 1)], res)
